@@ -257,22 +257,23 @@ _p("C01", modules=["record_protection", "framing", "framing_unbounded", "keys", 
    composition_assumptions=["induction over the record sequence: the Decryptor's per-direction state equals the sender's after the same records"],
    not_under_contract=["Decryptor.inflate (compression)", "Session.handle_tls_client_hello (one slice)"])
 
-_p("C02", modules=["quic_session_c", "quic_keystate", "quic_output", "demux", "quic_pkn", "keys", "quic_varint", "quic_frame"], level="other",
-   technique="contract-based deductive verification of the links of the QUIC pipeline; one bounded link; dissector header parsing not under contract",
+_p("C02", modules=["quic_session_c", "quic_keystate", "quic_dissector_c", "quic_output", "demux", "quic_pkn", "keys", "quic_varint", "quic_frame"], level="other",
+   technique="contract-based deductive verification of the links of the QUIC pipeline (dissector field extraction included); one bounded link",
    level_text="Links discharged on the real code: routing by connection ID / address (demux.quic_routing, any IDs incl. zero-length); header-protection removal and packet-number "
               "reconstruction (C16); keys (C15: Initial once and for all, handshake/0-RTT/1-RTT, key update generations); decrypt_packet opens each packet with the decryptor "
               "of its type/epoch, the reconstructed packet number and the RFC 9001 5.3 associated data (header through packet number) and handles the parsed frames once, in "
               "order; frames (C17, unbounded); handle_frame appends STREAM (and CRYPTO) frames in order and registers NEW_CONNECTION_ID for its sender; Retry resets exactly the "
               "handshake state; CRYPTO reassembly delivers the stream bytes in order for every arrival order (BOUNDED to 3 fragments); output grouping per capture timestamp "
               "with direction and payload (transition relation + final flush).",
-   level_note="level 'other': extract_quic_packet's header FIELD extraction (DCID/SCID/token/length fields, coalesced packets) is not specified by a contract - only its exception "
-              "freedom, progress and hp-key link are (thorough tier); QuicSession.handle_packet (every coalesced packet dissected with the CURRENT keys and suite), handle_crypto_frame "
+   level_note="level 'other': extract_quic_packet is under contract for datagrams laid out as RFC 9000 17.2/17.3 say (quic.dissector.*: every field, the Length-delimited payload, the "
+              "bytes left for the next coalesced packet, the header-protection sample/key/algorithm; all connection-ID lengths, varint widths, packet-number lengths) and, in the "
+              "thorough tier, for arbitrary bytes (no exception, progress); QuicSession.handle_packet (every coalesced packet dissected with the CURRENT keys and suite), handle_crypto_frame "
               "(keys follow the negotiated suite) and check_key_epoch are under contract; the composition into 'one output datagram per input datagram' is on paper; AEADs are uninterpreted",
    design_ref="DESIGN.md 4 C02",
-   explanation="All links except the dissector's long/short header field extraction are proved per function; the dissector is listed as unverified and the end-to-end composition is a paper argument.",
-   assumptions=[], trusted_base=["cryptography AEADs", "struct (dissector, not under contract)"],
+   explanation="All links are proved per function (the CRYPTO reassembly within a bound); the end-to-end composition is a paper argument and the TLS-in-QUIC hello parsers are not under contract.",
+   assumptions=["struct.unpack_from splits a buffer by a format of B and <n>s items (assumed contract of the struct module)"], trusted_base=["cryptography AEADs", "struct"],
    bounded=[{"function": "QuicTlsSession.update_session", "bound": "a CRYPTO stream prefix cut into <= 3 fragments (any cut points, any order)", "counted_as": "bounded"}],
-   not_under_contract=["tlexport.quic.quic_dissector.extract_quic_packet (field extraction)", "QuicTlsSession.handle_buffer/handle_client_hello/handle_server_hello"])
+   not_under_contract=["QuicTlsSession.handle_buffer/handle_client_hello/handle_server_hello"])
 
 _p("C13", modules=["metadata", "quic_output", "tcp_output", "robustness", "record_protection"], level="other",
    technique="contract-based deductive verification: two-run (product) contract on the record handler + builder contracts parametrised by the flag",
